@@ -2710,3 +2710,78 @@ RAW_MODELS[:0] = [
 ]
 MODELS = [(re.compile(p), f) for p, f in RAW_MODELS]
 
+
+# ------------------------------------------------------------------ benign-set-4 batch
+def m_stderror_overflow(ex, st, a, c, m):
+    return [(True, Adt('StdError', 'Overflow', [a[0]]))]
+
+
+def m_clone_from(ex, st, a, c, m):
+    src = clone(ex.deref(a[1]), {})
+    r = a[0]
+    while isinstance(r, Ref) and isinstance(ex.read(r.cell, r.path), Ref):
+        r = ex.read(r.cell, r.path)
+    if not isinstance(r, Ref):
+        raise Unsupported('clone_from through a value')
+    ex.write(r.cell, r.path, src)
+    return [(True, unit())]
+
+
+def _set_items(ex, v):
+    v = ex.deref(v)
+    return v.fields[0] if isinstance(v, Adt) and v.ty == 'HashSet' else v
+
+
+def m_set_remove(ex, st, a, c, m):
+    """remove(&x): every list entry equal to x stands for the one set element that goes; symbolic equalities fork"""
+    items = _set_items(ex, a[0])
+    x = full_deref(ex, a[1])
+    eqs = [z3.simplify(struct_eq(e, x)) for e in items]
+    unknown = [i for i, q in enumerate(eqs) if not (z3.is_true(q) or z3.is_false(q))]
+    if len(unknown) > 4:
+        raise Unsupported('set removal with more than 4 undetermined equalities')
+    outs = []
+    for mask in range(1 << len(unknown)):
+        chosen = {unknown[j] for j in range(len(unknown)) if mask >> j & 1}
+        conds = [eqs[i] if i in chosen else z3.Not(eqs[i]) for i in unknown]
+        gone = chosen | {i for i, q in enumerate(eqs) if z3.is_true(q)}
+        cnd = z3.simplify(z3.And(*conds)) if conds else True
+        if cnd is not True and z3.is_false(cnd):
+            continue
+
+        def eff(st2, gone=frozenset(gone)):
+            memo = getattr(st2, 'fork_memo', None)
+            ref = clone(a[0], memo) if memo else a[0]
+            its = _set_items(ex, ref)
+            its[:] = [e for i, e in enumerate(its) if i not in gone]
+        outs.append((True if cnd is True or z3.is_true(cnd) else cnd, z3.BoolVal(bool(gone)), eff))
+    return outs
+
+
+def m_set_is_empty(ex, st, a, c, m):
+    return [(True, z3.BoolVal(len(_set_items(ex, a[0])) == 0))]
+
+
+def m_set_insert(ex, st, a, c, m):
+    items = _set_items(ex, a[0])
+    x = full_deref(ex, a[1]) if isinstance(a[1], Ref) else a[1]
+    present = z3.simplify(z3.Or(*[struct_eq(e, x) for e in items])) if items else z3.BoolVal(False)
+    items.append(x)                      # duplicates in the list stand for one element: membership and removal treat them so
+    return [(True, z3.Not(present))]
+
+
+RAW_MODELS[:0] = [
+    (r'^(cosmwasm_std::)?StdError::overflow$', m_stderror_overflow),
+    (r'^<.* as Clone>::clone_from$', m_clone_from),
+    (r'^(HashSet|BTreeSet)::remove$', m_set_remove), (r'^(HashSet|BTreeSet)::is_empty$', m_set_is_empty), (r'^(HashSet|BTreeSet)::insert$', m_set_insert),
+]
+MODELS = [(re.compile(p), f) for p, f in RAW_MODELS]
+
+
+def m_set_new(ex, st, a, c, m):
+    return [(True, Adt('HashSet', None, [[]]))]
+
+
+RAW_MODELS[:0] = [(r'^(HashSet|BTreeSet)::(new|with_capacity)$|^<(HashSet|BTreeSet)<.*> as Default>::default$', m_set_new)]
+MODELS = [(re.compile(p), f) for p, f in RAW_MODELS]
+
